@@ -12,6 +12,34 @@ from netlib import Pin
 from common import Stream, cq, cvec, clist, main, rand_dyadic
 
 
+def loop_back(rng, d, kind):
+    """a matched two-port (no reflection, unit transmission: a waveguide) closing a feedback loop: both its pins go to
+    two so-far exposed pins of ONE component, sometimes placed before that component in the structure list"""
+    by = {}
+    for e in d["expo"]:
+        by.setdefault(e[0], []).append(e)
+    cands = [c for c, es in by.items() if len(es) >= 2]
+    if not cands or len(d["expo"]) < 3:
+        return
+    c = rng.choice(cands)
+    e1, e2 = rng.sample(by[c], 2)
+    ph = [("1", "0"), ("-1", "0"), ("0", "1"), ("0", "-1")]
+    a = rng.choice(ph)
+    b = a if kind in ("unitary_sym", "symmetric") else rng.choice(ph)
+    if kind == "contractive" and rng.random() < 0.5:
+        a, b = ("1/2", "0"), ("0", "-1/4")
+    from fractions import Fraction as Fr
+    Sf = [[["0", "0"], list(a)], [list(b), ["0", "0"]]]
+    comp = {"n": 2, "perm": rng.choice([[0, 1], [1, 0]]), "Sfrac": Sf,
+            "S": [[[float(Fr(z[0])), float(Fr(z[1]))] for z in row] for row in Sf]}
+    d["expo"] = [e for e in d["expo"] if e is not e1 and e is not e2]
+    w = len(d["comps"])
+    d["comps"].append(comp)
+    d["conns"].append([[w, 0], [e1[0], e1[1]]])
+    d["conns"].append([[e2[0], e2[1]], [w, 1]])
+    d["loop_back"] = True
+
+
 class EnergyStream(Stream):
     name = "energy"
     imports = "Field Matrix Base Kernel Network Solve Corr"
@@ -27,6 +55,8 @@ class EnergyStream(Stream):
             maxc = 4 if tier == "quick" else 6
             d = netlib.gen_netlist(rng, max_comps=maxc, max_pins=3 if i % 4 else 4, kind=kind, min_comps=1,
                                    expose_all=kind.startswith("unitary"))
+            if rng.random() < 0.25:
+                loop_back(rng, d, kind)
             kinds = {"unitary": ["ELossless", "EPassive"], "unitary_sym": ["ELossless", "EReciprocal", "EPassive"],
                      "contractive": ["EPassive"], "symmetric": ["EReciprocal", "EPassive"]}[kind]
             d["kinds"] = kinds
@@ -85,7 +115,7 @@ class EnergyStream(Stream):
 
     def classify(self, d):
         return "%s/c%d/l%d/e%d%s" % (d["kind"], len(d["comps"]), len(d["conns"]), len(d["expo"]),
-                                     "/mon%d" % len(d["mon"]) if d.get("mon") else "")
+                                     ("/mon%d" % len(d["mon"]) if d.get("mon") else "") + ("/loop" if d.get("loop_back") else ""))
 
     def shrink(self, d):
         out = []
